@@ -17,17 +17,18 @@ import (
 
 // schedVec is one line of LogMwGen: a complete schedule with the prediction.
 type schedVec struct {
-	N      int        `json:"n"`
-	Retain bool       `json:"retain"`
-	Gates  []string   `json:"gates"`
-	MwOn   *bool      `json:"mwon"`   // false: the middleware's level is filtered out by the base handler
-	Nmw    int        `json:"nmw"`    // LogMiddleware instances (default 1)
-	Routes [][]int    `json:"routes"` // per request: the instances it passes, outermost first (default [1])
-	Forms  []string   `json:"forms"`  // per request: request-target form (default: rotate by request id)
-	Ups    [][]string `json:"ups"`    // per request: foreign writer wrappers before the LogMiddleware (default: rotate)
-	Ops    [][]op     `json:"ops"`
-	Sched  [][]any    `json:"sched"` // [process, gate arrived at]
-	Pred   []struct {
+	N       int        `json:"n"`
+	Retain  bool       `json:"retain"`
+	Gates   []string   `json:"gates"`
+	MwOn    *bool      `json:"mwon"`    // false: the middleware's level is filtered out by the base handler
+	Nmw     int        `json:"nmw"`     // LogMiddleware instances (default 1)
+	Routes  [][]int    `json:"routes"`  // per request: the instances it passes, outermost first (default [1])
+	Forms   []string   `json:"forms"`   // per request: request-target form (default: rotate by request id)
+	Writers []string   `json:"writers"` // per request: kind of the client's writer (default: rotate)
+	Ups     [][]string `json:"ups"`     // per request: foreign writer wrappers before the LogMiddleware (default: rotate)
+	Ops     [][]op     `json:"ops"`
+	Sched   [][]any    `json:"sched"` // [process, gate arrived at]
+	Pred    []struct {
 		Fin      int   `json:"fin"`
 		Expected int   `json:"expected"`
 		Allowed  []int `json:"allowed"`
@@ -83,6 +84,9 @@ const stepPatience = 10 * time.Second
 // the scheduled requests start; without it they start from empty pools.
 func runSchedule(v *schedVec, ridBase int, warm bool, tr *tracer) (out schedOutcome) {
 	e := &env{s: sched.New(), gates: map[string]bool{}, retain: v.Retain, tr: tr, mwOff: v.MwOn != nil && !*v.MwOn, forms: v.Forms}
+	if len(v.Writers) == v.N {
+		e.writers = v.Writers
+	}
 	if len(v.Ups) == v.N {
 		e.ups = make([][]string, v.N)
 		for i, u := range v.Ups {
